@@ -1686,6 +1686,7 @@ func main() {
 		partForks(c, spec, idx)
 		t45 := time.Now()
 		partCrash(c, ch, idx)
+		partCrashScan(c, ch, idx)
 		c.Note("chain %d crash %.1fs", idx, time.Since(t45).Seconds())
 		t5 := time.Now()
 		partObjects(c, spec)
